@@ -15,106 +15,136 @@ From Coq Require Import QArith Qcanon.
 Local Open Scope nat_scope.
 
 (* At every transition of block i in a sweep from `st` (old values) to `new`: current_samples are new_0..new_{i-1},
-   old_i..old_{k-1}, and the target the sampler holds is the joint conditioned on exactly those other values
-   (the already updated blocks new, the rest old). *)
-Theorem C09_target_is_current_conditional : forall (V L St R : Type) (joint : list V -> L) (point : St -> V) (reinit : nat -> (V -> L) -> St -> St)
-    (trans : nat -> (V -> L) -> St -> R -> St) (tune : nat -> nat -> nat -> St -> St) (nst : nat -> nat),
+   old_i..old_{k-1}, and the target the sampler holds is what the conditioning operation returns for exactly those other
+   values (the already updated blocks new, the rest old).  `condf cur i` is the log-density of the object
+   self.target(others) returns; UNDER THE C01 ONE-STEP LAW for that operation (hypothesis: conditioning the joint on the
+   others and evaluating at v = evaluating the joint at the full assignment; C01 proves it for its model of
+   JointDistribution) the target is the joint at (new blocks before i, v, old blocks after i). *)
+Theorem C09_target_is_current_conditional : forall (V L St R : Type) (condf : list V -> nat -> V -> L) (joint : list V -> L)
+    (point : St -> V) (reinit : nat -> (V -> L) -> St -> St)
+    (trans : nat -> (V -> L) -> St -> R -> St) (nst : nat -> nat),
+  (forall cur i x, nth_error cur i = Some x -> forall v, condf cur i v = joint (upd cur i v)) ->
   forall (rs : nat -> nat -> R) (st : @gst V St),
   length (g_ss st) = length (g_cur st) ->
-  forall e, In e (snd (sweep joint point reinit trans nst rs st)) ->
+  forall e, In e (snd (sweep condf point reinit trans nst rs st)) ->
     let i := e_blk e in
-    let new := g_cur (fst (sweep joint point reinit trans nst rs st)) in
+    let new := g_cur (fst (sweep condf point reinit trans nst rs st)) in
     i < length (g_cur st) /\
     e_cur e = firstn i new ++ skipn i (g_cur st) /\
-    e_tgt e = cond joint (e_cur e) i /\
+    e_tgt e = condf (e_cur e) i /\
     forall v, e_tgt e v = joint (firstn i new ++ v :: skipn (S i) (g_cur st)).
-Proof. intros V L St R joint point reinit trans tune nst. exact (sweep_target_is_current_conditional joint point reinit trans nst). Qed.
+Proof.
+  intros V L St R condf joint point reinit trans nst Hc01 rs st Hwf e He.
+  destruct (sweep_target_is_current_conditional condf point reinit trans nst rs st Hwf e He) as (H1 & H2 & H3).
+  repeat split; auto. exact (sweep_target_is_joint condf point reinit trans nst rs st Hwf joint Hc01 e He).
+Qed.
 Print Assumptions C09_target_is_current_conditional.
+
+(* ... and this holds at EVERY transition of a whole run (any sequence of sample / warm-up calls, tuning in between): the
+   target a block sampler holds is the joint evaluated at current_samples-at-that-moment with the block's own entry replaced *)
+Theorem C09_run_targets : forall (V L St R : Type) (condf : list V -> nat -> V -> L) (joint : list V -> L)
+    (point : St -> V) (reinit : nat -> (V -> L) -> St -> St)
+    (trans : nat -> (V -> L) -> St -> R -> St) (tune : nat -> nat -> nat -> St -> St) (nst : nat -> nat),
+  (forall cur i y, nth_error cur i = Some y -> forall v, condf cur i v = joint (upd cur i v)) ->
+  forall rnd ops t0 (x : @run V L St),
+    length (g_ss (r_st x)) = length (g_cur (r_st x)) -> r_log x = [] ->
+    Forall (fun e => e_blk e < length (e_cur e) /\ forall v, e_tgt e v = joint (upd (e_cur e) (e_blk e) v))
+           (r_log (run_ops condf point reinit trans tune nst rnd ops t0 x)).
+Proof.
+  intros V L St R condf joint point reinit trans tune nst Hc01 rnd ops t0 x Hwf Hlog.
+  assert (H0 : Forall (ev_conditional condf) (r_log x)) by (rewrite Hlog; constructor).
+  pose proof (run_targets condf point reinit trans tune nst rnd ops t0 x Hwf H0) as HA.
+  pose proof (run_targets_joint condf point reinit trans tune nst joint rnd ops t0 x Hc01 Hwf H0) as HB.
+  apply Forall_forall. intros e He. split.
+  - exact (proj2 (proj1 (Forall_forall _ _) HA e He)).
+  - exact (proj1 (Forall_forall _ _) HB e He).
+Qed.
+Print Assumptions C09_run_targets.
 
 (* Every block is visited exactly once per sweep, in par_names order, and block b receives exactly nst b transitions,
    numbered 0 .. nst b - 1 (the whole sequence of sampler.step() calls of the sweep is determined). *)
-Theorem C09_all_visited_once : forall (V L St R : Type) (joint : list V -> L) (point : St -> V) (reinit : nat -> (V -> L) -> St -> St)
+Theorem C09_all_visited_once : forall (V L St R : Type) (condf : list V -> nat -> V -> L) (point : St -> V) (reinit : nat -> (V -> L) -> St -> St)
     (trans : nat -> (V -> L) -> St -> R -> St) (tune : nat -> nat -> nat -> St -> St) (nst : nat -> nat),
   forall (rs : nat -> nat -> R) (st : @gst V St),
   length (g_ss st) = length (g_cur st) ->
-  map (fun e => (e_blk e, e_j e)) (snd (sweep joint point reinit trans nst rs st))
+  map (fun e => (e_blk e, e_j e)) (snd (sweep condf point reinit trans nst rs st))
   = flat_map (fun b => map (pair b) (seq 0 (nst b))) (seq 0 (length (g_cur st))).
-Proof. intros V L St R joint point reinit trans tune nst. exact (sweep_all_visited_once joint point reinit trans nst). Qed.
+Proof. intros V L St R condf point reinit trans tune nst. exact (sweep_all_visited_once condf point reinit trans nst). Qed.
 Print Assumptions C09_all_visited_once.
 
 (* The first transition of every block update starts from that block's current value -- for block samplers whose
    re-targeting keeps the current point, when the samplers sit at the current values (C09_sync_invariant: they always do) *)
-Theorem C09_starts_from_current : forall (V L St R : Type) (joint : list V -> L) (point : St -> V) (reinit : nat -> (V -> L) -> St -> St)
+Theorem C09_starts_from_current : forall (V L St R : Type) (condf : list V -> nat -> V -> L) (point : St -> V) (reinit : nat -> (V -> L) -> St -> St)
     (trans : nat -> (V -> L) -> St -> R -> St) (tune : nat -> nat -> nat -> St -> St) (nst : nat -> nat),
   forall (rs : nat -> nat -> R) (st : @gst V St),
   length (g_ss st) = length (g_cur st) ->
   (forall i t s, point (reinit i t s) = point s) ->
   (forall i s, nth_error (g_ss st) i = Some s -> nth_error (g_cur st) i = Some (point s)) ->
-  forall e, In e (snd (sweep joint point reinit trans nst rs st)) -> e_j e = 0 ->
+  forall e, In e (snd (sweep condf point reinit trans nst rs st)) -> e_j e = 0 ->
     nth_error (g_cur st) (e_blk e) = Some (point (e_s e)).
-Proof. intros V L St R joint point reinit trans tune nst. exact (sweep_starts_from_current joint point reinit trans nst). Qed.
+Proof. intros V L St R condf point reinit trans tune nst. exact (sweep_starts_from_current condf point reinit trans nst). Qed.
 Print Assumptions C09_starts_from_current.
 
-Theorem C09_sync_invariant : forall (V L St R : Type) (joint : list V -> L) (point : St -> V) (reinit : nat -> (V -> L) -> St -> St)
+Theorem C09_sync_invariant : forall (V L St R : Type) (condf : list V -> nat -> V -> L) (point : St -> V) (reinit : nat -> (V -> L) -> St -> St)
     (trans : nat -> (V -> L) -> St -> R -> St) (tune : nat -> nat -> nat -> St -> St) (nst : nat -> nat),
   (forall i t s, point (reinit i t s) = point s) ->
   (forall i a b s, point (tune i a b s) = point s) ->
   forall rnd ops t0 (x : @run V L St),
-    insync point (r_st x) -> insync point (r_st (run_ops joint point reinit trans tune nst rnd ops t0 x)).
-Proof. intros V L St R joint point reinit trans tune nst. exact (run_ops_insync joint point reinit trans tune nst). Qed.
+    insync point (r_st x) -> insync point (r_st (run_ops condf point reinit trans tune nst rnd ops t0 x)).
+Proof. intros V L St R condf point reinit trans tune nst. exact (run_ops_insync condf point reinit trans tune nst). Qed.
 Print Assumptions C09_sync_invariant.
 
 (* k transitions: the sampler state at transition number j of block i is the block's own (old) sampler, re-targeted to
    the current conditional, advanced j times on that conditional with the block's random items 0..j-1; after the sweep
    the block's sampler has made exactly nst i transitions and the block's new value is that sampler's point. *)
-Theorem C09_k_transitions : forall (V L St R : Type) (joint : list V -> L) (point : St -> V) (reinit : nat -> (V -> L) -> St -> St)
+Theorem C09_k_transitions : forall (V L St R : Type) (condf : list V -> nat -> V -> L) (point : St -> V) (reinit : nat -> (V -> L) -> St -> St)
     (trans : nat -> (V -> L) -> St -> R -> St) (tune : nat -> nat -> nat -> St -> St) (nst : nat -> nat),
   forall (rs : nat -> nat -> R) (st : @gst V St),
   length (g_ss st) = length (g_cur st) ->
-  (forall e, In e (snd (sweep joint point reinit trans nst rs st)) ->
+  (forall e, In e (snd (sweep condf point reinit trans nst rs st)) ->
      let i := e_blk e in
      exists s, nth_error (g_ss st) i = Some s /\ e_j e < nst i /\
                e_s e = iter_trans trans i (e_tgt e) (e_j e) 0 (rs i) (reinit i (e_tgt e) s)) /\
   (forall i s, nth_error (g_ss st) i = Some s ->
-     let new := g_cur (fst (sweep joint point reinit trans nst rs st)) in
-     let t := cond joint (firstn i new ++ skipn i (g_cur st)) i in
+     let new := g_cur (fst (sweep condf point reinit trans nst rs st)) in
+     let t := condf (firstn i new ++ skipn i (g_cur st)) i in
      let s' := iter_trans trans i t (nst i) 0 (rs i) (reinit i t s) in
-     nth_error (g_ss (fst (sweep joint point reinit trans nst rs st))) i = Some s' /\ nth_error new i = Some (point s')).
+     nth_error (g_ss (fst (sweep condf point reinit trans nst rs st))) i = Some s' /\ nth_error new i = Some (point s')).
 Proof.
-  intros V L St R joint point reinit trans tune nst rs st H. split.
-  - exact (sweep_k_transitions joint point reinit trans nst rs st H).
-  - exact (sweep_result joint point reinit trans nst rs st H).
+  intros V L St R condf point reinit trans tune nst rs st H. split.
+  - exact (sweep_k_transitions condf point reinit trans nst rs st H).
+  - exact (sweep_result condf point reinit trans nst rs st H).
 Qed.
 Print Assumptions C09_k_transitions.
 
 (* sample(n) appends exactly n entries to the stored samples, touches no earlier entry, entry m is the tuple of
    values after sweep m, and the last stored entry is the current state (what a later call continues from) *)
-Theorem C09_stored_is_post_sweep : forall (V L St R : Type) (joint : list V -> L) (point : St -> V) (reinit : nat -> (V -> L) -> St -> St)
+Theorem C09_stored_is_post_sweep : forall (V L St R : Type) (condf : list V -> nat -> V -> L) (point : St -> V) (reinit : nat -> (V -> L) -> St -> St)
     (trans : nat -> (V -> L) -> St -> R -> St) (tune : nat -> nat -> nat -> St -> St) (nst : nat -> nat),
   forall rnd n t0 (x : @run V L St),
-  length (r_stored (sample_n joint point reinit trans nst rnd n t0 x)) = length (r_stored x) + n /\
-  firstn (length (r_stored x)) (r_stored (sample_n joint point reinit trans nst rnd n t0 x)) = r_stored x /\
-  (forall m, m < n -> nth_error (r_stored (sample_n joint point reinit trans nst rnd n t0 x)) (length (r_stored x) + m)
-                      = Some (g_cur (r_st (sample_n joint point reinit trans nst rnd (S m) t0 x)))) /\
-  (0 < n -> last_col (r_stored (sample_n joint point reinit trans nst rnd n t0 x)) = Some (g_cur (r_st (sample_n joint point reinit trans nst rnd n t0 x)))).
+  length (r_stored (sample_n condf point reinit trans nst rnd n t0 x)) = length (r_stored x) + n /\
+  firstn (length (r_stored x)) (r_stored (sample_n condf point reinit trans nst rnd n t0 x)) = r_stored x /\
+  (forall m, m < n -> nth_error (r_stored (sample_n condf point reinit trans nst rnd n t0 x)) (length (r_stored x) + m)
+                      = Some (g_cur (r_st (sample_n condf point reinit trans nst rnd (S m) t0 x)))) /\
+  (0 < n -> last_col (r_stored (sample_n condf point reinit trans nst rnd n t0 x)) = Some (g_cur (r_st (sample_n condf point reinit trans nst rnd n t0 x)))).
 Proof.
-  intros V L St R joint point reinit trans tune nst rnd n t0 x.
-  destruct (stored_is_post_sweep joint point reinit trans nst rnd n t0 x) as (H1 & H2 & H3).
-  repeat split; auto. exact (last_stored_is_current joint point reinit trans nst rnd n t0 x).
+  intros V L St R condf point reinit trans tune nst rnd n t0 x.
+  destruct (stored_is_post_sweep condf point reinit trans nst rnd n t0 x) as (H1 & H2 & H3).
+  repeat split; auto. exact (last_stored_is_current condf point reinit trans nst rnd n t0 x).
 Qed.
 Print Assumptions C09_stored_is_post_sweep.
 
 (* continuation (HybridGibbs): any sequence of sample / warm-up calls followed by another is the run of the
    concatenated sequence; in particular sample(n) then sample(m) is sample(n+m): same state, stored samples, transitions *)
-Theorem C09_continuation : forall (V L St R : Type) (joint : list V -> L) (point : St -> V) (reinit : nat -> (V -> L) -> St -> St)
+Theorem C09_continuation : forall (V L St R : Type) (condf : list V -> nat -> V -> L) (point : St -> V) (reinit : nat -> (V -> L) -> St -> St)
     (trans : nat -> (V -> L) -> St -> R -> St) (tune : nat -> nat -> nat -> St -> St) (nst : nat -> nat),
   forall rnd (ops1 ops2 : list op) t0 (x : @run V L St) n m,
-  run_ops joint point reinit trans tune nst rnd (ops1 ++ ops2) t0 x = run_ops joint point reinit trans tune nst rnd ops2 (t0 + ops_len ops1) (run_ops joint point reinit trans tune nst rnd ops1 t0 x) /\
-  run_ops joint point reinit trans tune nst rnd [OSample n; OSample m] t0 x = run_ops joint point reinit trans tune nst rnd [OSample (n + m)] t0 x.
+  run_ops condf point reinit trans tune nst rnd (ops1 ++ ops2) t0 x = run_ops condf point reinit trans tune nst rnd ops2 (t0 + ops_len ops1) (run_ops condf point reinit trans tune nst rnd ops1 t0 x) /\
+  run_ops condf point reinit trans tune nst rnd [OSample n; OSample m] t0 x = run_ops condf point reinit trans tune nst rnd [OSample (n + m)] t0 x.
 Proof.
-  intros V L St R joint point reinit trans tune nst rnd ops1 ops2 t0 x n m. split.
-  - exact (run_ops_app joint point reinit trans nst tune rnd ops1 ops2 t0 x).
-  - exact (sample_twice joint point reinit trans nst tune rnd n m t0 x).
+  intros V L St R condf point reinit trans tune nst rnd ops1 ops2 t0 x n m. split.
+  - exact (run_ops_app condf point reinit trans nst tune rnd ops1 ops2 t0 x).
+  - exact (sample_twice condf point reinit trans nst tune rnd n m t0 x).
 Qed.
 Print Assumptions C09_continuation.
 
@@ -122,7 +152,7 @@ Print Assumptions C09_continuation.
    re-targeting establishes "the cached evaluations are those of the target held" and a transition preserves it, then it
    holds at every transition of every run.  (Samplers that cache nothing: consistent := True.  Re-initialised samplers:
    c_re by construction.  HybridGibbs' state restore breaks c_re for MH-type samplers: C09_block_cache_consistent_refuted.) *)
-Theorem C09_cache_consistent_generic : forall (V L St R : Type) (joint : list V -> L) (point : St -> V) (reinit : nat -> (V -> L) -> St -> St)
+Theorem C09_cache_consistent_generic : forall (V L St R : Type) (condf : list V -> nat -> V -> L) (point : St -> V) (reinit : nat -> (V -> L) -> St -> St)
     (trans : nat -> (V -> L) -> St -> R -> St) (tune : nat -> nat -> nat -> St -> St) (nst : nat -> nat),
   forall (ok : St -> Prop) (consistent : (V -> L) -> St -> Prop),
   (forall i t s, ok s -> ok (reinit i t s)) -> (forall i t s r, ok s -> ok (trans i t s r)) ->
@@ -132,36 +162,52 @@ Theorem C09_cache_consistent_generic : forall (V L St R : Type) (joint : list V 
   forall rnd ops t0 (x : @run V L St),
     length (g_ss (r_st x)) = length (g_cur (r_st x)) -> Forall ok (g_ss (r_st x)) ->
     Forall (fun e => consistent (e_tgt e) (e_s e)) (r_log x) ->
-    Forall (fun e => consistent (e_tgt e) (e_s e)) (r_log (run_ops joint point reinit trans tune nst rnd ops t0 x)).
-Proof. intros V L St R joint point reinit trans tune nst. exact (run_cache_consistent joint point reinit trans tune nst). Qed.
+    Forall (fun e => consistent (e_tgt e) (e_s e)) (r_log (run_ops condf point reinit trans tune nst rnd ops t0 x)).
+Proof. intros V L St R condf point reinit trans tune nst. exact (run_cache_consistent condf point reinit trans tune nst). Qed.
 Print Assumptions C09_cache_consistent_generic.
 
 (* ---- legacy cuqi.sampler.Gibbs: the instance with a fresh, stateless sampler per update ---- *)
-Theorem C09_legacy_sweep : forall (V L R : Type) (joint : list V -> L) (ltrans : nat -> (V -> L) -> V -> R -> V)
-    (rs : nat -> nat -> R) (cur : list V) e,
-  In e (snd (lsweep joint ltrans rs cur)) ->
+Theorem C09_legacy_sweep : forall (V L R : Type) (condf : list V -> nat -> V -> L) (joint : list V -> L)
+    (ltrans : nat -> (V -> L) -> V -> R -> V),
+  (forall cur i x, nth_error cur i = Some x -> forall v, condf cur i v = joint (upd cur i v)) ->
+  forall (rs : nat -> nat -> R) (cur : list V) e,
+  In e (snd (lsweep condf ltrans rs cur)) ->
   let i := e_blk e in
-  let new := fst (lsweep joint ltrans rs cur) in
+  let new := fst (lsweep condf ltrans rs cur) in
   i < length cur /\ e_j e = 0 /\
   e_cur e = firstn i new ++ skipn i cur /\
   (forall v, e_tgt e v = joint (firstn i new ++ v :: skipn (S i) cur)) /\
   nth_error cur i = Some (e_s e) /\                       (* the step starts from the block's current value *)
   nth_error new i = Some (ltrans i (e_tgt e) (e_s e) (rs i 0)) /\
-  map (@e_blk V L V) (snd (lsweep joint ltrans rs cur)) = seq 0 (length cur).
-Proof. exact (@legacy_sweep_spec). Qed.
+  map (@e_blk V L V) (snd (lsweep condf ltrans rs cur)) = seq 0 (length cur).
+Proof. intros V L R condf joint ltrans H. exact (@legacy_sweep_spec V L R condf joint H ltrans). Qed.
 Print Assumptions C09_legacy_sweep.
 
 (* continuation (legacy): a second call sample(ns2) resumes from the last stored sweep -- same samples and the same
    transitions as a single call sample(ns1 + ns2, nb) *)
-Theorem C09_continuation_legacy : forall (V L R : Type) (joint : list V -> L) (ltrans : nat -> (V -> L) -> V -> R -> V)
+Theorem C09_continuation_legacy : forall (V L R : Type) (condf : list V -> nat -> V -> L) (ltrans : nat -> (V -> L) -> V -> R -> V)
     rnd init0 ns1 ns2 nb t0 st1 lg1,
   0 < ns1 ->
-  lsample joint ltrans rnd init0 ns1 nb t0 (mkL None None) = LOk st1 lg1 ->
+  lsample condf ltrans rnd init0 ns1 nb t0 (mkL None None) = LOk st1 lg1 ->
   exists st2 lg2,
-    lsample joint ltrans rnd init0 ns2 0 (t0 + nb + ns1) st1 = LOk st2 lg2 /\
-    lsample joint ltrans rnd init0 (ns1 + ns2) nb t0 (mkL None None) = LOk (mkL (l_samples st2) (l_warm st1)) (lg1 ++ lg2).
+    lsample condf ltrans rnd init0 ns2 0 (t0 + nb + ns1) st1 = LOk st2 lg2 /\
+    lsample condf ltrans rnd init0 (ns1 + ns2) nb t0 (mkL None None) = LOk (mkL (l_samples st2) (l_warm st1)) (lg1 ++ lg2).
 Proof. exact (@legacy_continuation). Qed.
 Print Assumptions C09_continuation_legacy.
+
+(* ... and a call that only warms up (ns = 0, nb > 0) is continued from its last warm-up sweep c: the second call's
+   samples and transitions are those of ns2 sweeps started from c (repo commit 2dba9ab; before it, the call raised) *)
+Theorem C09_continuation_legacy_after_warmup : forall (V L R : Type) (condf : list V -> nat -> V -> L)
+    (ltrans : nat -> (V -> L) -> V -> R -> V) rnd init0 ns2 nb t0,
+  0 < nb ->
+  exists st1 lg1 st2 lg2 c,
+    lsample condf ltrans rnd init0 0 nb t0 (mkL None None) = LOk st1 lg1 /\
+    last_col (fst (lsweeps condf ltrans rnd nb t0 init0)) = Some c /\
+    lsample condf ltrans rnd init0 ns2 0 (t0 + nb) st1 = LOk st2 lg2 /\
+    l_samples st2 = Some (fst (lsweeps condf ltrans rnd ns2 (t0 + nb) c)) /\
+    lg2 = snd (lsweeps condf ltrans rnd ns2 (t0 + nb) c).
+Proof. exact (@legacy_continuation_after_warmup). Qed.
+Print Assumptions C09_continuation_legacy_after_warmup.
 
 (* ---- invariance on finite state spaces, exact probabilities ---- *)
 (* If each block kernel leaves the conditional of its block invariant for every value of the other blocks
@@ -182,18 +228,18 @@ Print Assumptions C09_sweep_invariant_finite.
    are recomputed when the target is re-conditioned; fixes/C09_refresh_cached_target_evaluations.diff), or, for the
    code as it is (fresh = false), no block sampler that caches evaluations of its target (no KMH; the recording
    samplers, Direct, Conjugate, LinearRTO, ... and the re-initialised NUTS cache nothing that is restored). *)
-Theorem C09_block_cache_consistent : forall (fresh : bool) (joint : list vec -> Q) nst rnd ops t0 (x : @run vec Q sst),
+Theorem C09_block_cache_consistent : forall (fresh : bool) (condf : list vec -> nat -> vec -> Q) nst rnd ops t0 (x : @run vec Q sst),
   (fresh = true \/ Forall (fun s => s_kind s <> KMH) (g_ss (r_st x))) ->
   length (g_ss (r_st x)) = length (g_cur (r_st x)) ->
   Forall (fun e => cache_ok (e_tgt e) (e_s e)) (r_log x) ->
   Forall (fun e => cache_ok (e_tgt e) (e_s e))
-         (r_log (run_ops joint s_pt (creinit fresh) ctrans ctune nst rnd ops t0 x)).
+         (r_log (run_ops condf s_pt (creinit fresh) ctrans ctune nst rnd ops t0 x)).
 Proof.
-  intros fresh joint nst rnd ops t0 x [->|Hk] Hwf Hlog.
-  - exact (cache_consistent_fresh joint nst rnd ops t0 x Hwf Hlog).
+  intros fresh condf nst rnd ops t0 x [->|Hk] Hwf Hlog.
+  - exact (cache_consistent_fresh condf nst rnd ops t0 x Hwf Hlog).
   - destruct fresh.
-    + exact (cache_consistent_fresh joint nst rnd ops t0 x Hwf Hlog).
-    + exact (cache_consistent_restoring joint nst rnd ops t0 x Hwf Hk Hlog).
+    + exact (cache_consistent_fresh condf nst rnd ops t0 x Hwf Hlog).
+    + exact (cache_consistent_restoring condf nst rnd ops t0 x Hwf Hk Hlog).
 Qed.
 Print Assumptions C09_block_cache_consistent.
 
@@ -204,10 +250,10 @@ Print Assumptions C09_block_cache_consistent.
 Theorem C09_block_cache_consistent_refuted :
   exists fs kinds inits scales sc ops,
     In KMH kinds /\
-    cache_consistent (r_log (hybrid_run false fs kinds inits scales [] sc ops)) = false /\
-    cache_consistent (r_log (hybrid_run true fs kinds inits scales [] sc ops)) = true /\
-    r_stored (hybrid_run false fs kinds inits scales [] sc ops) = [[[1]; [-2]]; [[1]; [-2]]]%Q /\
-    r_stored (hybrid_run true fs kinds inits scales [] sc ops) = [[[1]; [-2]]; [[-1]; [-2]]]%Q.
+    cache_consistent (r_log (hybrid_run false (qjoint fs) kinds inits scales [] sc ops)) = false /\
+    cache_consistent (r_log (hybrid_run true (qjoint fs) kinds inits scales [] sc ops)) = true /\
+    r_stored (hybrid_run false (qjoint fs) kinds inits scales [] sc ops) = [[[1]; [-2]]; [[1]; [-2]]]%Q /\
+    r_stored (hybrid_run true (qjoint fs) kinds inits scales [] sc ops) = [[[1]; [-2]]; [[-1]; [-2]]]%Q.
 Proof.
   exists w_fs, [KMH; KMH], [[1]; [2]]%Q, [1; 1]%Q, w_sc, [OSample 2].
   split; [left; reflexivity | exact witness_refutes].
@@ -217,8 +263,10 @@ Print Assumptions C09_block_cache_consistent_refuted.
 (* non-vacuity: (1) a concrete run meets the hypotheses of the wiring and cache theorems; (2) the concrete sampler kinds
    keep their point under re-targeting and tuning; (3) a 2x2 lattice with weights 1,2,3,4 and the exact Gibbs kernels meets those of the invariance theorem *)
 Example C09_example :
-  (let x := hybrid_run true w_fs [KMH; KMH] [[1]; [2]]%Q [1; 1]%Q [] w_sc [] in
+  (let x := hybrid_run true (qjoint w_fs) [KMH; KMH] [[1]; [2]]%Q [1; 1]%Q [] w_sc [] in
    length (g_ss (r_st x)) = length (g_cur (r_st x)) /\ insync s_pt (r_st x) /\ r_log x = []) /\
   ((forall f i t s, s_pt (creinit f i t s) = s_pt s) /\ (forall i a b s, s_pt (ctune i a b s) = s_pt s)) /\
+  (* the C01 one-step hypothesis holds for the conditioning operation the executable instance runs with *)
+  (forall (jt : list vec -> Q) cur i (y : vec), nth_error cur i = Some y -> forall v, cond jt cur i v = jt (upd cur i v)) /\
   Forall (fblock_ok 0%Z ex_all ex_pi) ex_blocks.
-Proof. split; [exact ex_run_ok | split; [exact ex_points_kept | exact ex_blocks_ok]]. Qed.
+Proof. split; [exact ex_run_ok | split; [exact ex_points_kept | split; [intros; reflexivity | exact ex_blocks_ok]]]. Qed.
